@@ -173,9 +173,41 @@ def tensor_changed(src_model, mo):
   return n
 
 
+def blockwise_case(ctx, case, rng):
+  """Directed: FULLY_CONNECTED on [batch, sequence, features] with / without bias and fused activation, replaced by the block-wise
+  emulation subgraph (skip_checks recipe).  Only the structural and interpreter oracles of C01 apply to the replaced graph."""
+  def f(g, r_):
+    x = g.inp((1, int(r_.integers(1, 4)), 8))
+    y = g.fc(x, int(r_.choice([4, 6])), bias=bool(r_.random() < 0.7), act=int(r_.choice([0, 1, 1, 3])), keep=True)
+    return [g.fc(y, 3, keep=True)] if r_.random() < 0.5 else [y]
+  spec = models._single(rng, f, 'blockwise_fc')
+  # converter-style empty quantization tables on every tensor (the emulation writes into the weight's table)
+  spec = models.shuffle_indices(spec, rng, tensors=False, buffers=False, signatures=False, empty_quant=True)
+  datasets = common.make_data(rng, spec)
+  ok, _ = common.admit(spec, datasets)
+  if not ok:
+    return {'outcome': 'skipped', 'reason': 'generator_reject'}
+  src = models.read(spec.content)
+  rules = [('.*', 'FULLY_CONNECTED', str(rng.choice(['x_blk8wo_b2', 'x_blk8_b2'])))]
+  run = common.pipeline(spec, datasets, rules=rules)
+  ctx.count('blockwise_directed_cases')
+  if run.phase == 'no_rule_accepted' or run.exc is not None:
+    ctx.count('blockwise_directed_raised')
+    return {}
+  ctx.count('returned')
+  ctx.count('blockwise_directed_returned')
+  mo = check_returned(ctx, spec, run, 'rules:blockwise', datasets, src)
+  ctx.unit(common.model_key(spec, run.recipe), nontrivial=mo is not None)
+  return {}
+
+
 def run_case(ctx, case, rng):
+  if case % 32 == 17:
+    return blockwise_case(ctx, case, rng)
   seen = False
-  for spec, src, datasets, lab, run, acc in common.graph_workload(ctx, case, rng, safe_regex=False):
+  # the structural statement covers every accepted recipe, the advanced block-wise ones (skip_checks, operator replacement) included
+  pool = recipes.GOOD + (['x_blk8wo_b2', 'x_blk8_b2'] * 2 if case % 4 == 1 else [])
+  for spec, src, datasets, lab, run, acc in common.graph_workload(ctx, case, rng, safe_regex=False, cfg_pool=pool):
     seen = True
     if run.exc is not None:
       continue
